@@ -3,16 +3,48 @@ script text, and seeded generators.  One line carries both forms:
     script m <hex of the rendered text> ## <abstract tokens>
 the C++ harness reads the hex, the Lean driver reads what follows `##`."""
 
+import struct
+from fractions import Fraction
+
 DURS = [0, 0, 125, 250, 500]
 STEPS = [0, 50, 125, 125, 250, 300, 1000]
+# nominal durations whose decimal spelling is NOT exact in binary32 (0.7 -> 0.699999988…): the engine's
+# `uint64_t(float * 1000.f)` is computed in single precision and happens to give the nominal value;
+# any other evaluation (double product, rounding mode, +0.5) gives nominal-1 for some of them
+INEXACT_DURS = [700, 900, 350, 450, 650, 950, 50, 100, 300, 600, 1100, 2300]
+
+
+def _f32(x):
+    return struct.unpack("<f", struct.pack("<f", x))[0]
+
+
+def _strtof(text):
+    """binary32 nearest to the decimal `text` (what std::strtof returns), computed exactly"""
+    exact = Fraction(text)
+    c = _f32(float(exact))
+    best = c
+    for cand in (c, _f32(c * (1 + 2.0 ** -23)), _f32(c * (1 - 2.0 ** -23))):
+        if abs(Fraction(cand) - exact) < abs(Fraction(best) - exact):
+            best = cand
+    return best
+
+
+def engine_ms(nominal_ms):
+    """milliseconds the engine derives from the literal `secs(nominal_ms)`:
+    `uint64_t(std::strtof(text) * 1000.f)` — binary32 product (exact in double, then rounded once)"""
+    return int(_f32(_strtof(secs(nominal_ms)) * 1000.0))
+
+
+
+PARENT_OPS = ("waitparent", "waittillparent", "notifyparent")
 
 
 def tok(ins):
     k = ins[0]
     if k == "mark": return "m%d" % ins[1]
-    if k == "wait": return "w%d" % ins[1]
+    if k == "wait": return "w%d" % engine_ms(ins[1])
     if k == "waittill": return "W%d.%s" % (ins[1], ".".join(str(n) for n in ins[2]))
-    if k == "waittill_timeout": return "X%d.%d.%d" % (ins[1], ins[2], ins[3])
+    if k == "waittill_timeout": return "X%d.%d.%d" % (ins[1], ins[2], engine_ms(ins[3]))
     if k == "notify": return "N%d.%d" % (ins[1], ins[2])
     if k == "endon": return "E%d.%d" % (ins[1], ins[2])
     if k == "delete": return "D%d" % ins[1]
@@ -20,7 +52,9 @@ def tok(ins):
     if k == "thread": return "t%d" % ins[1]
     if k == "waitthread": return "T%d" % ins[1]
     if k == "pause": return "p"
-    if k == "waitparent": return "R%d" % ins[1]
+    if k == "waitparent": return "R%d" % engine_ms(ins[1])
+    if k == "waittillparent": return "Y%s" % ".".join(str(n) for n in ins[1])
+    if k == "notifyparent": return "Z%d" % ins[1]
     if k == "end":
         if ins[1] is None: return "e"
         if isinstance(ins[1], tuple): return "eP%d" % ins[1][1]
@@ -58,6 +92,11 @@ def stmt(ins):
     if k == "waitthread": return "waitthread t%d local" % ins[1]
     if k == "pause": return "pause"
     if k == "waitparent": return "local.p0 wait %s" % secs(ins[1])
+    if k == "waittillparent":
+        if len(ins[1]) == 1:
+            return 'local.p0 waittill "n%d"' % ins[1][0]
+        return "local.p0 waittill_any %s" % " ".join('"n%d"' % n for n in ins[1])
+    if k == "notifyparent": return 'local.p0 notify "n%d"' % ins[1]
     if k == "end":
         if ins[1] is None: return "end"
         if isinstance(ins[1], tuple): return "end local.p%d" % ins[1][1]
@@ -72,7 +111,7 @@ def render(prog):
         if body and body[0][0] == "params":
             out.append("t%d %s:" % (i, " ".join("local.p%d" % j for j in range(body[0][1]))))
             body = body[1:]
-        elif any(x[0] == "waitparent" for x in body):
+        elif any(x[0] in PARENT_OPS for x in body):
             out.append("t%d local.p0:" % i)
         else:
             out.append("t%d:" % i)
@@ -86,7 +125,7 @@ def script_line(prog, name="m"):
     def head(body):
         if body and body[0][0] == "params":
             return ""
-        return "(1) " if any(x[0] == "waitparent" for x in body) else ""
+        return "(1) " if any(x[0] in PARENT_OPS for x in body) else ""
     abstract = " / ".join(head(body) + " ".join(tok(x) for x in body) for body in prog)
     return "script %s %s ## %s" % (name, render(prog).encode().hex(), abstract)
 
@@ -123,6 +162,66 @@ def gen_timer_prog(rng, nlabels=None):
                 body.append(mk.next())
         if rng.random() < 0.5:
             body.append(("end", rng.choice([None, 7, 42])))
+        prog.append(body)
+    return prog
+
+
+def gen_inexact_case(rng):
+    """C06 (never early): 1-3 threads waiting durations that are inexact in binary32, and a frame
+    schedule that lands one millisecond before, on, and after each due time"""
+    nl = rng.randint(1, 3)
+    mk = Marks()
+    durs = [rng.choice(INEXACT_DURS) for _ in range(nl)]
+    prog = [[mk.next()] + [("thread", i + 1) for i in range(nl)] + [mk.next()]]
+    for d in durs:
+        body = [mk.next(), ("wait", d), mk.next()]
+        if rng.random() < 0.4:
+            d2 = rng.choice(INEXACT_DURS)
+            body += [("wait", d2), mk.next()]
+        prog.append(body)
+    points = set()
+    for body in prog[1:]:
+        t = 0
+        for ins in body:
+            if ins[0] == "wait":
+                t += engine_ms(ins[1])
+                points |= {t - 1, t, t + 1}
+    lines = ["reset", script_line(prog), "call m t0"]
+    now = 0
+    for t in sorted(x for x in points if x > 0):
+        lines.append("step %d" % (t - now))
+        now = t
+    return lines + ["step 1000", "thread-result"]
+
+
+def gen_hub_prog(rng):
+    """threads of ONE script instance waiting on a *thread object* (their spawner, `local.p0`):
+    label 1 is the hub; it spawns waiters / notifiers (labels 2..) that wait on it or notify it"""
+    mk = Marks()
+    nchild = rng.randint(2, 4)
+    hub = [mk.next()]
+    for i in range(nchild):
+        hub += [("thread", 2 + i)]
+        if rng.random() < 0.3:
+            hub.append(mk.next())
+    r = rng.random()
+    hub += [("pause",)] if r < 0.4 else [("wait", rng.choice(DURS + [500, 1000]))] if r < 0.8 else []
+    hub.append(mk.next())
+    if rng.random() < 0.5:
+        hub.append(("end", None))
+    prog = [[mk.next(), ("thread", 1), mk.next()], hub]
+    for i in range(nchild):
+        body = [mk.next()]
+        x = rng.random()
+        if x < 0.6:
+            names = [rng.choice([1, 2])] if rng.random() < 0.75 else [1, 2]
+            body += [("waittillparent", names), mk.next()]
+        elif x < 0.85:
+            body += [("wait", rng.choice(DURS)), ("notifyparent", rng.choice([1, 2])), mk.next()]
+        else:
+            body += [("waitparent", rng.choice(DURS)), mk.next()]
+        if rng.random() < 0.3:
+            body += [("wait", rng.choice(DURS)), mk.next()]
         prog.append(body)
     return prog
 
@@ -254,13 +353,16 @@ def gen_call_case(rng):
             lines.append("step %d" % rng.choice(STEPS))
             lines.append("thread-result")
     lines += ["step 1000", "thread-result", "step 1000", "thread-result"]
+    # a third of the host calls go through the by-name overloads ExecuteThread(name, [event,] label)
+    lines = [l.replace("call m ", "call @m ", 1) if l.startswith("call m ") and rng.random() < 0.33 else l for l in lines]
     return lines
 
 
 def gen_reset_case(rng):
     """C13: a sync/timer program run under a random schedule with director.Reset() or a recompile of the
     same script injected at a frame / host-call boundary, after which the script is compiled again and run"""
-    prog = gen_sync_prog(rng) if rng.random() < 0.7 else gen_timer_prog(rng)
+    r = rng.random()
+    prog = gen_sync_prog(rng) if r < 0.55 else gen_timer_prog(rng) if r < 0.8 else gen_hub_prog(rng)
     base = gen_case(rng, prog)
     body = base[2:-3]
     cut = rng.randint(1, len(body)) if body else 0
